@@ -21,6 +21,7 @@ def UFList(t): return Ty("uflist", t)
 def SeqList(t): return Ty("seqlist", t)
 def Obj(cls): return Ty("obj", cls)
 def Abs(name): return Ty("abs", name)     # uninterpreted sort
+def UFDictOf(k, v): return Ty("ufdict", k, v)    # dict as has/val functions (only as the type of a loop-havoc'ed local; values are decoded as Sym(v))
 
 _sort_cache = {}
 def sort_of(ty):
@@ -97,6 +98,8 @@ def fresh(ty, hint="v"):
     if ty.kind == "uflist":
         f = z3.Function(n + "_at", z3.IntSort(), sort_of(ty.args[0])); ln = z3.Int(n + "_len")
         return UFL(ty.args[0], (lambda i, f=f: f(i)), ln), [ln >= 0]
+    if ty.kind == "ufdict":
+        return fresh_ufdict(ty.args[0], sort_of(ty.args[1]), hint, None, (lambda st_, z, t=ty.args[1]: Sym(t, z)))
     return Sym(ty, z3.Const(n, sort_of(ty))), []
 
 def lift(v):
